@@ -153,6 +153,21 @@ def select_cases(pid, spec, tier, seed):
                     u = unis[2]
                     sub = drnd.sample(u, min(len(u), drnd.randint(3, 6)))
                     fl += [f for f in (drnd.choice(['d', 'w']), drnd.choice(['x', 'r', 'x'])) if f in spec['flags'] and f not in fl]
+                    if drnd.random() < 0.5:
+                        # class variants: every digit (with \w: every letter too) is replaced by a random member of its class, so
+                        # that no test case is a prefix of another as a STRING while the converted clusters are (seed C08e: a
+                        # self-check skipped on a string-level prefix test)
+                        def vary(w_):
+                            o_ = []
+                            for ch_ in w_:
+                                if 48 <= ch_ <= 57:
+                                    o_.append(drnd.choice([48, 49, 50, 51, 53, 57]))
+                                elif 'w' in fl and 97 <= ch_ <= 122:
+                                    o_.append(drnd.choice([97, 98, 99, 120, 121, 122]))
+                                else:
+                                    o_.append(ch_)
+                            return o_
+                        sub = [vary(w_) for w_ in sub]
             if 'E' in fl and 'e' in fl:
                 fl.remove('e')
             fam.append({'tcs': sub, 'f': ','.join(fl), 'mr': 1, 'ms': 1, 'alpha': 'dense'})
@@ -292,6 +307,31 @@ def k2_on_model(model_out, t):
         return not (res and res[0]['find'] and res[0]['find'][0] == [0, len(t)])
     except Exception:
         return True
+
+def model_out_admissible(case, r):
+    """Seed C08e: the implementation skipped the self-check although the configuration does not allow that. The model followed the
+    recorded (inadmissible) outcome, so its output equals the implementation's and says nothing about the unchanged code. Emulate the
+    self-check the unchanged code runs — `find_iter(tc).count() == 1` for every normalised test case, by the optimised engine, on the
+    model's first and second candidate — and return the model's output under that outcome."""
+    try:
+        tcs = None
+        for s_, t_ in r.get('trace', []):
+            if s_ == 'norm':
+                tcs = t_
+                break
+        hs = [list(t) for t in case['tcs']]
+        for sc in ('pass1', 'pass2'):
+            o = runner.model_out_with_sc(case, r, sc)
+            if o in (None, '!ERR'):
+                return None
+            p = [int(x) for x in o.strip('[]').split(',') if x.strip()]
+            rc, out, err = runner.sh([runner.GREXV, 'match'], inp=(json.dumps({'p': p, 'hs': hs}) + '\n').encode())
+            res = [json.loads(l) for l in out.splitlines() if l.startswith('{')]
+            if res and all(c == 1 for c in res[0].get('meta_count', [None])):
+                return o
+        return runner.model_out_with_sc(case, r, 'fail')
+    except Exception:
+        return None
 
 def f_find(case, r):
     v = r.get('verdicts', {})
@@ -813,6 +853,10 @@ def run_property(pid, tier, seed):
             incons += 1
         for fl in fails_of(c, r):
             k = known_for(pid, c, r, fl, st)
+            if k == 'K2' and mm is not None and mm.get('sc_ok') == '0' and r.get('out') is not None:
+                mo_ = model_out_admissible(c, r)
+                if mo_ not in (None, '!ERR') and not k2_on_model(mo_, fl.get('t')):
+                    k = None
             if k == 'K2' and mm is not None and r.get('out') is not None and mm.get('out') not in (None, '!ERR') \
                     and mm.get('out') != runner.ser_cps(r['out']):
                 # K2 is a finding about the unchanged code, which the model reproduces: when the implementation's
@@ -851,6 +895,10 @@ def run_property(pid, tier, seed):
                 if k == 'K2' and mm2 is not None and r2.get('out') is not None and mm2.get('out') not in (None, '!ERR') \
                         and mm2.get('out') != runner.ser_cps(r2['out']) and not k2_on_model(mm2['out'], fl.get('t')):
                     k = None
+                if k == 'K2' and mm2 is not None and mm2.get('sc_ok') == '0' and r2.get('out') is not None:
+                    mo_ = model_out_admissible(m_, r2)
+                    if mo_ not in (None, '!ERR') and not k2_on_model(mo_, fl.get('t')):
+                        k = None
                 if not k:
                     unknown.append((m_, r2, fl)); nfound += 1
             impl[(tag, m_['id'])] = r2
